@@ -268,22 +268,79 @@ def use_text(exports, phase, pool=None):
     return "(list %s)" % " ".join(calls)
 
 
+def _blocked_read_round(slot, k):
+    """(srfi 18): a green thread of the context blocks reading a non-blocking pipe (sexp_blocker -> the scheduler's poll set,
+    threads.c sexp_insert_pollfd / sexp_make_pollfds), the pipe is fed, the thread is joined; then a forced collection.
+    -> script lines; the LAST eval's value is the result list"""
+    ch = "xyzwvutsrq"[k % 10]
+    return ["eval\t%s\t(define c13-rd%d (make-thread (lambda () (read-char c13-pipe-in)))) (thread-start! c13-rd%d) (do ((i 0 (+ i 1))) ((= i 10)) (thread-yield!)) 1" % (slot, k, k),
+            "feed\t%s\t%s" % (slot, ch),
+            "gc\t%s" % slot,
+            "eval\t%s\t(list (c13-call \"blocked-read-in-green-thread#%d\" (lambda () (thread-join! c13-rd%d 5 'never-woken)) #f) (c13-call \"allocate-after-gc#%d\" (lambda () (vector-length (make-vector 20000 0))) #f))" % (slot, k, k, k)]
+
+
+# per-library additions to the call pool: operations that no export call with pool arguments reaches
+EXTRA_SETUP = {"(srfi 18)": lambda slot: ["pipe\t%s\tc13-pipe-in" % slot]}
+EXTRA_ROUND = {"(srfi 18)": _blocked_read_round}
+
+
 def diff_scripts(libname, exports, ka, kb, sa, sb, pool=None):
     imp = "(import %s) 1" % libname
     u1, u2 = use_text(exports, 1, pool), use_text(exports, 2, pool)
-    two = ["new\tA\tplain\t0", "eval\tA\t" + shift_text(ka, sa), "eval\tA\t" + HELPERS,
-           "new\tB\tplain\t0", "eval\tB\t" + shift_text(kb, sb), "eval\tB\t" + HELPERS,
-           "eval\tA\t" + imp, "eval\tA\t" + u1,
-           "eval\tB\t" + imp, "eval\tB\t" + u1,
-           "eval\tA\t" + u2, "eval\tB\t" + u2, "audit\tA", "audit\tB",
-           "destroy\tB", "eval\tA\t" + u2, "destroy\tA"]
-    # positions (1-based line numbers) of the use results of A and of B in the two-context script
-    pos_two = dict(A=[8, 11, 16], B=[10, 12])
+    setup = EXTRA_SETUP.get(libname, lambda slot: [])
+    rnd = EXTRA_ROUND.get(libname)
 
-    def single(k, s, reps):
-        return ["new\tA\tplain\t0", "eval\tA\t" + shift_text(k, s), "eval\tA\t" + HELPERS, "eval\tA\t" + imp, "eval\tA\t" + u1] + \
-               ["eval\tA\t" + u2] * reps + ["destroy\tA"]
-    return "\n".join(two) + "\n", pos_two, "\n".join(single(ka, sa, 2)) + "\n", [5, 6, 7], "\n".join(single(kb, sb, 1)) + "\n", [5, 6]
+    class Script:
+        def __init__(self):
+            self.lines, self.pos, self.audits, self.k = [], {"A": [], "B": []}, [], 0
+
+        def add(self, *ls):
+            self.lines.extend(ls)
+
+        def use(self, who, text):
+            self.lines.append("eval\t%s\t%s" % (who, text))
+            self.pos[who].append(len(self.lines))
+            if rnd:
+                self.k += 1
+                self.lines.extend(rnd(who, self.k))
+                self.pos[who].append(len(self.lines))
+
+        def audit(self, who):
+            self.lines.append("audit\t%s" % who)
+            self.audits.append(len(self.lines))
+
+    def start(sc, who, k, s):
+        sc.add("new\t%s\tplain\t0" % who, "eval\t%s\t%s" % (who, shift_text(k, s)), "eval\t%s\t%s" % (who, HELPERS))
+
+    two = Script()
+    start(two, "A", ka, sa)
+    start(two, "B", kb, sb)
+    two.add("eval\tA\t" + imp, *setup("A"))
+    two.use("A", u1)
+    two.add("eval\tB\t" + imp, *setup("B"))
+    two.use("B", u1)
+    two.use("A", u2)
+    two.use("B", u2)
+    two.audit("A")
+    two.audit("B")
+    two.add("destroy\tB")
+    two.use("A", u2)
+    two.add("destroy\tA")
+
+    def own_program(who):
+        """the lines of `two` that belong to context `who`, renamed to A, as a script of its own"""
+        sc = Script()
+        for n, ln in enumerate(two.lines, 1):
+            f = ln.split("\t")
+            if len(f) > 1 and f[1] == who:
+                f[1] = "A"
+                sc.lines.append("\t".join(f))
+                if n in two.pos[who]:
+                    sc.pos["A"].append(len(sc.lines))
+        return sc
+    sa_, sb_ = own_program("A"), own_program("B")
+    return ("\n".join(two.lines) + "\n", dict(A=two.pos["A"], B=two.pos["B"], audits=two.audits),
+            "\n".join(sa_.lines) + "\n", sa_.pos["A"], "\n".join(sb_.lines) + "\n", sb_.pos["A"])
 
 
 def split_results(text):
@@ -295,3 +352,411 @@ def split_results(text):
         if m:
             out.append((m.group(1), m.group(2), re.sub(r"#<[^>]*>", "#<obj>", m.group(3))))
     return out
+
+
+# ------------------------------------------------------------------ (C) round 3: signal delivery (model coq/C13/Sig.v)
+
+SIGS = [10, 12, 14, 23, 28]          # USR1 USR2 ALRM URG WINCH
+SIG_PRELUDE = ("(import (scheme base) (chibi process) (srfi 18)) (define c13-sig-got '()) "
+               "(define (c13-settle) (do ((i 0 (+ i 1))) ((= i 20)) (thread-yield!))) 1")
+
+
+def signals(rng, nctx, nops, scripted_prefix=True):
+    """random history of: contexts created, Scheme handlers installed for a signal in a context, signals ignored, signals
+    raised (kill(getpid(), s)), contexts running their scheduler, contexts destroyed (their handler signals are set to
+    'ignore' first: the table of lib/chibi/signal.c keeps a raw context pointer).
+    -> (model ops, script text, meta)"""
+    ops, lines, meta = [], [], []
+    live, disp, route = [], {}, {}
+
+    def add(op, script, **m):
+        ops.append(op)
+        m["op"], m["first_line"] = op, len(lines) + 1
+        lines.extend(script)
+        m["state"] = {}
+        for j in live:
+            lines.append("sigstate\tc%d" % j)
+            m["state"][j] = len(lines)
+        meta.append(m)
+
+    def new(i):
+        live.append(i)
+        add("n:%d" % i, ["new\tc%d\tplain\t0" % i, "eval\tc%d\t%s" % (i, SIG_PRELUDE)], kind="new", ctx=i)
+
+    def install(i, s):
+        disp[s], route[s] = "h", i
+        add("h:%d:%d" % (i, s), ["eval\tc%d\t(set-signal-action! %d (lambda (n) (set! c13-sig-got (cons n c13-sig-got)))) 1" % (i, s)], kind="install", ctx=i, sig=s)
+
+    def ignore(i, s):
+        disp[s], route[s] = "i", i
+        add("g:%d:%d" % (i, s), ["eval\tc%d\t(set-signal-action! %d #f) 1" % (i, s)], kind="ignore", ctx=i, sig=s)
+
+    def raise_(s):
+        add("r:%d" % s, ["raise\t%d" % s], kind="raise", sig=s)
+
+    def run(i):
+        add("u:%d" % i, ["eval\tc%d\t(c13-settle) 1" % i], kind="run", ctx=i)
+
+    def destroy(i):
+        for s in sorted(disp):
+            if disp[s] == "h" and route[s] == i:
+                ignore(i, s)
+        live.remove(i)
+        add("x:%d" % i, ["destroy\tc%d" % i], kind="destroy", ctx=i)
+
+    new(1)
+    new(2)
+    nexti = 3
+    if scripted_prefix:
+        # two contexts, DIFFERENT signals, the one registered EARLIER is raised first; then re-registration
+        s1, s2 = rng.sample(SIGS, 2)
+        install(1, s1); install(2, s2); raise_(s1); run(2); run(1); raise_(s2); run(1); run(2)
+        install(1, s1); raise_(s2); raise_(s1); run(2); run(1)
+    while len(ops) < nops:
+        r = rng.random()
+        handled = [s for s in SIGS if disp.get(s) == "h"]
+        if r < 0.07 and nexti <= nctx:
+            new(nexti)
+            nexti += 1
+        elif r < 0.35:
+            if r < 0.30 or not disp:
+                s0 = rng.choice(SIGS)
+                install(rng.choice(live), s0)
+            else:
+                s0 = rng.choice(sorted(disp))
+                ignore(rng.choice(live), s0)
+            if rng.random() < 0.6:
+                # independence sweep: registering / ignoring s0 must not change where any OTHER signal goes
+                for s in [x for x in SIGS if disp.get(x) == "h" and x != s0]:
+                    raise_(s)
+                for j in list(live):
+                    run(j)
+        elif r < 0.65 and (handled or disp):
+            raise_(rng.choice(handled) if handled and rng.random() < 0.9 else rng.choice(sorted(disp)))
+        elif r < 0.93:
+            run(rng.choice(live))
+        elif len(live) > 1:
+            destroy(rng.choice(live))
+            if not live:
+                break
+    for i in list(live):
+        run(i)
+    for i in list(live):
+        destroy(i)
+    return ops, "\n".join(lines) + "\n", meta
+
+
+def judge_signals(model_lines, meta, out):
+    O, C, ended = parse_ops_output(out)
+    probs = []
+    for n, (m, item) in enumerate(zip(meta, model_lines)):
+        ok, rest = item.split("/", 1)
+        want = {}
+        for part in filter(None, rest.split(",")):
+            i, st = part.split("=")
+            pend, got = st.split("|")
+            want[int(i)] = ([int(x) for x in pend.split(".") if x], [int(x) for x in got.split(".") if x])
+        if ok != "1":
+            probs.append(dict(kind="broken", sig="signal-model:generator", at=n, detail="the model refuses operation %s (generator and model disagree about what is defined)" % m["op"]))
+            break
+        res = O.get(m["first_line"] + (1 if m["kind"] == "new" else 0))
+        if res is None:
+            probs.append(dict(kind="violation", sig="signal:crash-on-delivery" if m["kind"] == "raise" else "crash:ops", at=n, detail="the harness died during operation %s" % m["op"]))
+            break
+        if res[2].startswith("ERR"):
+            probs.append(dict(kind="violation", sig="signal:%s-fails" % m["kind"], at=n, detail="%s -> %s" % (m["op"], res[2][:200])))
+        if sorted(want) != sorted(m["state"]):
+            probs.append(dict(kind="broken", sig="signal-model:live-contexts", at=n, detail="model %s, script %s" % (sorted(want), sorted(m["state"]))))
+            break
+        for j, ln in sorted(m["state"].items()):
+            st = O.get(ln)
+            if st is None:
+                probs.append(dict(kind="violation", sig="crash:ops", at=n, detail="the harness died after operation %s" % m["op"]))
+                break
+            mm = re.match(r"pending=(-?\d+) got=(.*)$", st[2])
+            if not mm:
+                probs.append(dict(kind="broken", sig="ops-output", at=n, detail=st[2][:200]))
+                continue
+            mask = sum(1 << s for s in want[j][0])
+            got_txt = "(" + " ".join(map(str, want[j][1])) + ")"
+            if int(mm.group(1)) != mask:
+                probs.append(dict(kind="violation", sig="signal:pending-mask-of-wrong-context", at=n,
+                                  detail="after %s context c%d has pending-signal mask %s, the model (one table entry per signal number, coq/C13/Sig.v) says %d" % (m["op"], j, mm.group(1), mask)))
+            if mm.group(2) != got_txt:
+                probs.append(dict(kind="violation", sig="signal:handler-log-differs", at=n,
+                                  detail="after %s the handlers of context c%d have run for %s, the model says %s" % (m["op"], j, mm.group(2), got_txt)))
+        if len(probs) > 8:
+            break
+    else:
+        if not ended:
+            probs.append(dict(kind="violation", sig="crash:ops", at=len(meta), detail="the harness did not reach the end of the script"))
+    return probs
+
+
+# ------------------------------------------------------------------ (D) round 3: per-context tables (model coq/C13/Tab.v)
+
+TAB_LIBS = ["(srfi 69)", "(srfi 27)", "(srfi 18)", "(chibi time)", "(srfi 151)", "(srfi 98)", "(srfi 9)", "(srfi 144)"]
+
+
+def tables_plan(rng, nctx, nops):
+    """interleaved plan of table operations of several parent-less contexts"""
+    plan, live, keys, nexti = [], [], {}, 1
+    names = ["0c13-s%d" % k for k in range(8)] + ["0c13-a-rather-long-symbol-name-number-%d" % k for k in range(3)]
+
+    def new():
+        nonlocal nexti
+        i = nexti
+        nexti += 1
+        live.append(i)
+        keys[i] = []
+        plan.append(dict(kind="new", ctx=i, heap=rng.choice([0, 0, 1 << 20]), hs=rng.choice([20, 40, 60])))
+
+    new()
+    new()
+    while len(plan) < nops:
+        r = rng.random()
+        if r < 0.06 and nexti <= nctx:
+            new()
+            continue
+        if not live:
+            break
+        i = rng.choice(live)
+        if r < 0.36:
+            key = rng.choice([k for k in range(1, 400) if k not in keys[i]][:12] if rng.random() < 0.7 else [k for k in range(1, 400) if k not in keys[i]])
+            parent = None
+            if keys[i] and rng.random() < 0.5:
+                parent = rng.choice(keys[i])
+            elif rng.random() < 0.1:
+                parent = "bogus"
+            keys[i].append(key)
+            plan.append(dict(kind="reg", ctx=i, key=key, parent=parent))
+        elif r < 0.40:
+            # a burst that crosses the type-array boundary (array doubling, sexp.c:337-349)
+            for _ in range(rng.choice([30, 45])):
+                key = next(k for k in range(400, 999) if k not in keys[i])
+                keys[i].append(key)
+                plan.append(dict(kind="reg", ctx=i, key=key, parent=None))
+        elif r < 0.60:
+            plan.append(dict(kind="intern", ctx=i, name=rng.choice(names)))
+        elif r < 0.74:
+            plan.append(dict(kind="define", ctx=i, name=rng.choice(names), value=rng.randrange(1, 200)))
+        elif r < 0.86:
+            plan.append(dict(kind="load", ctx=i, lib=rng.randrange(len(TAB_LIBS))))
+        elif r < 0.92:
+            plan.append(dict(kind="audit", ctx=i))
+        elif len(live) > 1 or nexti > nctx:
+            live.remove(i)
+            plan.append(dict(kind="destroy", ctx=i))
+    for i in list(live):
+        plan.append(dict(kind="destroy", ctx=i))
+    return plan
+
+
+def tables_script(plan, only=None):
+    """script of the interleaved run (only=None) or of context `only` alone (its own operations, nothing else)
+    -> (text, [per plan index: dict(main=line, probes={ctx: line}, dumps={ctx: line}) or None])"""
+    lines, info, live = ["consts"], [], []
+    for p in plan:
+        i = p["ctx"]
+        if only is not None and i != only:
+            if p["kind"] == "new":
+                pass
+            info.append(None)
+            continue
+        m = dict(probes={}, dumps={})
+        k = p["kind"]
+        if k == "new":
+            live.append(i)
+            lines.append("new\tc%d\tplain\t%d" % (i, p["heap"]))
+        elif k == "reg":
+            par = "-" if p["parent"] is None else ("99999" if p["parent"] == "bogus" else "@t%d" % p["parent"])
+            lines.append("regtype\tc%d\tt%d\t%s" % (i, p["key"], par))
+        elif k == "intern":
+            lines.append("intern\tc%d\t%s" % (i, p["name"]))
+        elif k == "define":
+            lines.append("define\tc%d\t%s\t%d" % (i, p["name"], p["value"]))
+        elif k == "load":
+            lines.append("eval\tc%d\t(import %s) 1" % (i, TAB_LIBS[p["lib"]]))
+        elif k == "audit":
+            lines.append("audit\tc%d" % i)
+        elif k == "destroy":
+            live.remove(i)
+            lines.append("destroy\tc%d" % i)
+        m["main"] = len(lines)
+        if k == "intern":
+            for j in live:
+                if j != i:
+                    lines.append("find\tc%d\t%s" % (j, p["name"]))
+                    m["probes"][j] = len(lines)
+        if k == "define":
+            for j in live:
+                lines.append("lookup\tc%d\t%s" % (j, p["name"]))
+                m["probes"][j] = len(lines)
+        for j in live:
+            lines.append("tables\tc%d" % j)
+            m["dumps"][j] = len(lines)
+        info.append(m)
+    return "\n".join(lines) + "\n", info
+
+
+def parse_tables(text):
+    d = dict(x.split("=", 1) for x in text.split(" ") if "=" in x)
+    out = dict(nt=int(d["nt"]), cap=int(d["cap"]), nsym=int(d["nsym"]), nmod=int(d["nmod"]), audit=d["audit"],
+               glob=int(d["glob"], 16), symtab=int(d["symtab"], 16), tarr=int(d["tarr"], 16))
+    out["heaps"] = [(int(a, 16), int(b, 16)) for a, b in (h.split(":") for h in d.get("heaps", "").split(",") if h)]
+    return out
+
+
+def judge_tables(plan, inter_out, inter_info, alone, run_model):
+    """alone: {ctx: (out, info)} of the single-context runs.  run_model(ncore, nids, ops) -> list of answer items.
+    -> list of problems dict(kind, sig, at, detail)"""
+    probs = []
+    O, _, ended = parse_ops_output(inter_out)
+    m0 = re.match(r"ncore=(\d+) symtab=(\d+)", O.get(1, ("", "", ""))[2])
+    if not m0:
+        return [dict(kind="broken", sig="ops-output", at=0, detail="no consts line")]
+    ncore = int(m0.group(1))
+    if int(m0.group(2)) != 389:
+        return [dict(kind="broken", sig="tables-model:symbol-table-size", at=0, detail="SEXP_SYMBOL_TABLE_SIZE is %s, the model has 389" % m0.group(2))]
+    # ---- the single-context runs: parameters of the opaque operations, ids of parents, expected module counts
+    AO = {}
+    for i, (out, info) in alone.items():
+        Oi, _, endi = parse_ops_output(out)
+        if not endi:
+            return [dict(kind="broken", sig="tables:alone-run", at=0, detail="the single-context run of context c%d does not complete" % i)]
+        AO[i] = (Oi, info)
+    prev_dump, type_id, alone_dump = {}, {}, {}
+    mops, mmap = [], []      # model operations and, per model op, (plan index, role, ctx)
+    for n, p in enumerate(plan):
+        i, k = p["ctx"], p["kind"]
+        Oi, info = AO[i]
+        a = info[n]
+        dump = parse_tables(Oi[a["dumps"][i]][2]) if i in a["dumps"] else None
+        alone_dump[n] = dump
+        if k == "new":
+            mops += ["N:%d:%d" % (i, p["hs"]), "L:%d:0:%d:%d" % (i, dump["nt"] - ncore, dump["nsym"])]
+            mmap += [(n, "skip", i), (n, "main", i)]
+        elif k == "reg":
+            mm = re.match(r"id=(\d+)", Oi[a["main"]][2])
+            if not mm:
+                return [dict(kind="broken", sig="tables:alone-run", at=n, detail="regtype alone -> %s" % Oi[a["main"]][2])]
+            type_id[(i, p["key"])] = int(mm.group(1))
+            par = "-" if p["parent"] is None else ("9999" if p["parent"] == "bogus" else str(type_id[(i, p["parent"])]))
+            mops.append("R:%d:%d:%s" % (i, p["key"], par))
+            mmap.append((n, "main", i))
+        elif k == "intern":
+            mops.append("I:%d:%s" % (i, p["name"]))
+            mmap.append((n, "main", i))
+            for j in sorted(inter_info[n]["probes"]):
+                mops.append("F:%d:%s" % (j, p["name"]))
+                mmap.append((n, "probe", j))
+        elif k == "define":
+            mops.append("D:%d:%s:%d" % (i, p["name"], p["value"]))
+            mmap.append((n, "main", i))
+            for j in sorted(inter_info[n]["probes"]):
+                mops.append("K:%d:%s" % (j, p["name"]))
+                mmap.append((n, "probe", j))
+        elif k == "load":
+            mops.append("L:%d:%d:%d:%d" % (i, p["lib"] + 1, dump["nt"] - prev_dump[i]["nt"], dump["nsym"] - prev_dump[i]["nsym"]))
+            mmap.append((n, "main", i))
+        elif k == "destroy":
+            mops.append("X:%d" % i)
+            mmap.append((n, "main", i))
+        if dump is not None:
+            prev_dump[i] = dump
+    nids = max(p["ctx"] for p in plan) + 1
+    items = run_model(ncore, nids, mops)
+    if len(items) != len(mops):
+        return [dict(kind="broken", sig="tables-model:driver", at=0, detail="model answered %d items for %d operations: %s" % (len(items), len(mops), items[:1]))]
+    # model state after each PLAN operation (= after its last model op) and the result of the main / probe ops
+    after, results = {}, {}
+    for (n, role, j), it in zip(mmap, items):
+        res, rest = it.split("/", 1)
+        cs, disj = rest.rsplit("|", 1)
+        st = {}
+        for part in filter(None, cs.split(",")):
+            c, v = part.split("=")
+            f = [int(x) for x in v.split(".")]
+            st[int(c)] = dict(nt=f[0], cap=f[1], nsym=f[2], nenv=f[3], nmod=f[4], glob=f[5], symtab=f[6], tarr=f[7], closed=f[8])
+        after[n] = (st, disj)
+        if role != "skip":
+            results[(n, role, j)] = res
+    ident, mident, last_real, own_dumps = {}, {}, {}, {}
+    for n, p in enumerate(plan):
+        i, k = p["ctx"], p["kind"]
+        a = inter_info[n]
+        hist = "%s of context c%d (operation %d of the plan)" % (k, i, n)
+        main = O.get(a["main"])
+        if main is None:
+            probs.append(dict(kind="violation", sig="crash:ops", at=n, detail="the harness died during " + hist))
+            break
+        Oi, info = AO[i]
+        alone_main = Oi[info[n]["main"]][2]
+
+        def differ(sig, what, got, alone_v, model_v):
+            # the oracle is the context run alone: a difference from it is a violation of the property; a difference
+            # from the model only (implementation alone == implementation in company) is a model <-> code mismatch
+            if got != alone_v:
+                probs.append(dict(kind="violation", sig="tables:" + sig, at=n, detail="%s: %s is %s; the same context running alone: %s (model: %s)" % (hist, what, got, alone_v, model_v)))
+            elif model_v is not None and got != model_v:
+                probs.append(dict(kind="broken", sig="tables-model:" + sig, at=n, detail="%s: %s is %s (alone too); the model coq/C13/Tab.v says %s" % (hist, what, got, model_v)))
+        if k == "reg":
+            differ("type-id-differs", "the tag of the new type", main[2], alone_main, results[(n, "main", i)].replace("id:", "id=") + " own=1")
+        elif k == "intern":
+            r = results[(n, "main", i)].split(":")
+            differ("intern-differs", "bucket / newness of the symbol", main[2], alone_main, "bucket=%s fresh=%s own=1" % (r[1], r[2]))
+            for j, ln in a["probes"].items():
+                got, want = O.get(ln, ("", "", "?"))[2], results[(n, "probe", j)].split(":")[1]
+                if got != want:
+                    probs.append(dict(kind="violation", sig="tables:symbol-visibility", at=n, detail="%s (%s): find in context c%d -> %s, model %s" % (hist, p["name"], j, got, want)))
+        elif k == "define":
+            for j, ln in a["probes"].items():
+                got, want = O.get(ln, ("", "", "?"))[2], results[(n, "probe", j)].split(":")[1]
+                if got != (want if want != "-" else "unbound"):
+                    probs.append(dict(kind="violation", sig="tables:global-visibility", at=n, detail="%s (%s := %d): lookup in context c%d -> %s, model %s" % (hist, p["name"], p["value"], j, got, want)))
+        elif main[2].startswith("ERR") or main[2] != alone_main:
+            differ("operation-result", "the result", main[2], alone_main, None)
+        st, disj = after.get(n, ({}, "1")) if k != "audit" else (None, "1")
+        if disj != "1" or (st and any(v["closed"] != 1 for v in st.values())):
+            probs.append(dict(kind="broken", sig="tables-model:invariant", at=n, detail="the extracted model's own invariant check fails after " + hist))
+        real = {}
+        for j, ln in a["dumps"].items():
+            if ln not in O:
+                probs.append(dict(kind="violation", sig="crash:ops", at=n, detail="the harness died after " + hist))
+                break
+            real[j] = parse_tables(O[ln][2])
+        else:
+            for j, d in sorted(real.items()):
+                who = "context c%d after %s" % (j, hist)
+                if d["audit"] != "ok":
+                    probs.append(dict(kind="violation", sig="tables:foreign-pointer" if d["audit"].startswith("FOREIGN") else "tables:table-inconsistent", at=n, detail="%s: table audit %s" % (who, d["audit"])))
+                inside = lambda x: any(b <= x < b + sz for b, sz in d["heaps"])
+                if not (inside(d["glob"]) and inside(d["symtab"]) and inside(d["tarr"])):
+                    probs.append(dict(kind="violation", sig="tables:foreign-pointer", at=n, detail="%s: globals vector / symbol table / type array outside its own heaps" % who))
+                for j2, d2 in real.items():
+                    if j2 > j and (any(b < b2 + s2 and b2 < b + s for b, s in d["heaps"] for b2, s2 in d2["heaps"]) or d["glob"] == d2["glob"] or d["symtab"] == d2["symtab"] or d["tarr"] == d2["tarr"]):
+                        probs.append(dict(kind="violation", sig="tables:heaps-overlap", at=n, detail="%s and context c%d share heap addresses or a table" % (who, j2)))
+                if j in ident and (ident[j][0] != d["glob"] or ident[j][1] != d["symtab"]):
+                    probs.append(dict(kind="violation", sig="tables:identity-changed", at=n, detail="%s: its globals vector / symbol table vector was replaced" % who))
+                if j == i:
+                    ad = alone_dump[n]
+                    for f in ("nt", "cap", "nsym", "nmod"):
+                        mv = st[j][f] if (st is not None and j in st and f != "nmod") else None
+                        differ("count-differs:" + f, "%s of context c%d" % (f, j), d[f], ad[f], mv)
+                    if st is not None and j in st and j in mident and j in last_real:
+                        if (mident[j] != st[j]["tarr"]) != (last_real[j]["tarr"] != d["tarr"]):
+                            probs.append(dict(kind="broken", sig="tables-model:type-array-growth", at=n, detail="%s: type array %s, in the model it %s" % (who, "was replaced" if last_real[j]["tarr"] != d["tarr"] else "stayed", "was replaced" if mident[j] != st[j]["tarr"] else "stayed")))
+                elif j in last_real:
+                    for f in ("nt", "cap", "nsym", "nmod", "tarr"):
+                        if d[f] != last_real[j][f]:
+                            probs.append(dict(kind="violation", sig="tables:changed-by-other-context:" + f, at=n, detail="%s: %s of context c%d went from %s to %s" % (hist, f, j, last_real[j][f], d[f])))
+                ident.setdefault(j, (d["glob"], d["symtab"]))
+                last_real[j] = d
+                if st is not None and j in st:
+                    mident[j] = st[j]["tarr"]
+        if len(probs) > 8:
+            break
+    else:
+        if not ended:
+            probs.append(dict(kind="violation", sig="crash:ops", at=len(plan), detail="the harness did not reach the end of the script"))
+    return probs
